@@ -155,12 +155,9 @@ class _Serial:
 
                 self.old_tpb = core_cuda.THREADS_PER_BLOCK
                 core_cuda.THREADS_PER_BLOCK = 4
-        elif s.world == "real-numba":
-            import numba
-
-            self.old = (numba.get_num_threads(), numba.get_parallel_chunksize())
-            numba.set_num_threads(1)
-            numba.set_parallel_chunksize(0)
+        # numpy / real-numba: the chunk size / thread configuration legitimately affects rounding
+        # (BLAS row count; SIMD lanes of the fastmath kernels), so references are taken under the
+        # *current* configuration and compared across configurations separately, within the budget.
         return self
 
     def __exit__(self, *exc):
@@ -171,11 +168,6 @@ class _Serial:
                 from speckit import core_cuda
 
                 core_cuda.THREADS_PER_BLOCK = self.old_tpb
-        elif s.world == "real-numba":
-            import numba
-
-            numba.set_num_threads(self.old[0])
-            numba.set_parallel_chunksize(self.old[1])
         return False
 
 
